@@ -1241,19 +1241,25 @@ QXmppTask<IqResult> OutgoingIqManager::start(const QString &id, const QString &t
 void OutgoingIqManager::finish(const QString &id, IqResult &&result)
 {
     if (auto itr = m_requests.find(id); itr != m_requests.end()) {
-        itr->second.interface.finish(std::move(result));
+        // The continuation runs synchronously and may start new requests or end the session:
+        // take the request out of the table before finishing it.
+        auto promise = std::move(itr->second.interface);
         m_requests.erase(itr);
+        promise.finish(std::move(result));
     }
 }
 
 void OutgoingIqManager::cancelAll()
 {
-    for (auto &[id, state] : m_requests) {
+    // Continuations run synchronously and may start new requests or cancel again: iterate over a
+    // detached table. Requests started meanwhile belong to what comes next and stay pending.
+    auto pending = std::move(m_requests);
+    m_requests.clear();
+    for (auto &[id, state] : pending) {
         state.interface.finish(QXmppError {
             u"IQ has been cancelled."_s,
             QXmpp::SendError::Disconnected });
     }
-    m_requests.clear();
 }
 
 void OutgoingIqManager::onSessionOpened(const SessionBegin &session)
@@ -1290,7 +1296,6 @@ bool OutgoingIqManager::handleStanza(const QDomElement &stanza)
         return false;
     }
 
-    auto &promise = itr->second.interface;
     const auto &expectedFrom = itr->second.jid;
 
     // Check that the sender of the response matches the recipient of the request.
@@ -1303,6 +1308,11 @@ bool OutgoingIqManager::handleStanza(const QDomElement &stanza)
                     .arg(id, from, expectedFrom));
         return false;
     }
+
+    // The continuation runs synchronously and may start new requests or end the session:
+    // take the request out of the table before finishing it.
+    auto promise = std::move(itr->second.interface);
+    m_requests.erase(itr);
 
     // report IQ errors as QXmppError (this makes it impossible to parse the full error IQ,
     // but that is okay for now)
@@ -1322,7 +1332,6 @@ bool OutgoingIqManager::handleStanza(const QDomElement &stanza)
         promise.finish(stanza);
     }
 
-    m_requests.erase(itr);
     return true;
 }
 
